@@ -16,6 +16,12 @@ type Profile struct {
 	Tall     bool // units taller than the page allowed
 	Rules    bool // extra @page rules
 	Exotic   bool // width/height/padding/min/max on @page, !important, :nth
+	// Decor: most blocks carry top / bottom padding and borders with different top and bottom
+	// values, from a few pixels to more than a line, and the flow is a run of small decorated
+	// blocks: the content of a block then often ends inside the decoration-sized window above
+	// the page bottom (the content fits, the padding / border does not: inFlowLayout lays the
+	// block out again with a larger bottomSpace)
+	Decor bool
 	MaxUnits int
 }
 
@@ -29,6 +35,11 @@ func RandomProfile(r *vlib.Rng) Profile {
 	p.Tall = r.Chance(1, 8)
 	p.Rules = r.Chance(2, 3)
 	p.Exotic = p.Rules && r.Chance(1, 3)
+	p.Decor = r.Chance(1, 3)
+	if p.Decor {
+		p.Spacing = true
+		p.MaxUnits = r.Range(8, 30)
+	}
 	return p
 }
 
@@ -42,7 +53,11 @@ type gen struct {
 
 func (g *gen) brk(before bool) int {
 	r := g.r
-	if !g.p.Breaks || !r.Chance(1, 5) {
+	den := 5
+	if g.p.Decor {
+		den = 14 // pages end because they are full, not at forced breaks
+	}
+	if !g.p.Breaks || !r.Chance(1, den) {
 		return 0
 	}
 	return g.brkValue()
@@ -79,10 +94,16 @@ func (g *gen) node(depth int) *Node {
 	if depth >= 3 && k < 4 {
 		k = 4 + r.Intn(6)
 	}
+	blockP := 4
+	if g.p.Decor { // a run of small decorated blocks, little nesting
+		blockP = []int{7, 2, 1, 0}[depth]
+	}
 	switch {
-	case k < 4: // block
+	case k < blockP: // block
 		n := &Node{Kind: KBlk}
-		if g.p.Spacing {
+		if g.p.Decor {
+			g.decorate(n)
+		} else if g.p.Spacing {
 			n.Mt = vlib.Pick(r, []int{0, 0, 0, 5, 10, 20})
 			n.Mb = vlib.Pick(r, []int{0, 0, 0, 5, 10, 20})
 			n.Pt = vlib.Pick(r, []int{0, 0, 0, 0, 5, 10})
@@ -103,7 +124,7 @@ func (g *gen) node(depth int) *Node {
 		}
 		n.Bb = g.brk(true)
 		n.Ba = g.brk(false)
-		if g.p.Breaks && r.Chance(1, 6) {
+		if g.p.Breaks && r.Chance(1, 6) && !(g.p.Decor && r.Chance(2, 3)) {
 			n.Bi = vlib.Pick(r, []int{1, 1, 2, 3})
 			if n.Bi == 3 {
 				g.tags["column-value"] = true
@@ -116,6 +137,9 @@ func (g *gen) node(depth int) *Node {
 			g.tags["named"] = true
 		}
 		nk := r.Range(1, 4)
+		if g.p.Decor {
+			nk = r.Range(1, 3)
+		}
 		for i := 0; i < nk && g.units < g.p.MaxUnits; i++ {
 			n.Kids = append(n.Kids, g.node(depth+1))
 		}
@@ -125,7 +149,7 @@ func (g *gen) node(depth int) *Node {
 		// a break value on the first / last of several children: it belongs to the boundary
 		// between this block and its sibling (the values of all boxes that start / end at a
 		// boundary meet there)
-		if g.p.Breaks && len(n.Kids) >= 2 && r.Chance(1, 2) {
+		if g.p.Breaks && len(n.Kids) >= 2 && r.Chance(1, 2) && !(g.p.Decor && r.Chance(3, 4)) {
 			wrap := func(i int) *Node {
 				if n.Kids[i].Kind != KBlk {
 					n.Kids[i] = &Node{Kind: KBlk, Kids: []*Node{n.Kids[i]}}
@@ -148,12 +172,50 @@ func (g *gen) node(depth int) *Node {
 	}
 }
 
+// decorate gives a block paddings and borders whose top and bottom values are drawn
+// independently (so they mostly differ), between a few pixels and more than a line; margins
+// are rarer (a bottom margin enclosed by bottom padding is a known deviation of its own)
+func (g *gen) decorate(n *Node) {
+	r := g.r
+	if r.Chance(1, 4) {
+		n.Mt = vlib.Pick(r, []int{0, 5, 10, 20})
+	}
+	if r.Chance(1, 6) {
+		n.Mb = vlib.Pick(r, []int{5, 10, 20})
+	}
+	if r.Chance(1, 2) {
+		n.Pt = vlib.Pick(r, []int{5, 10, 15, 25})
+	}
+	if r.Chance(3, 5) {
+		n.Pb = vlib.Pick(r, []int{5, 10, 15, 20, 30})
+	}
+	if r.Chance(1, 2) {
+		n.Bt = vlib.Pick(r, []int{0, 0, 3, 5, 10, 20, 30})
+		n.Bbw = vlib.Pick(r, []int{0, 2, 5, 10, 20, 30})
+	}
+	if n.Mt != 0 || n.Mb != 0 {
+		g.tags["margins"] = true
+	}
+	if n.Pt+n.Bt != 0 {
+		g.tags["pad-top"] = true
+	}
+	if n.Pb+n.Bbw != 0 {
+		g.tags["pad-bottom"] = true
+	}
+	if n.Bt != n.Bbw {
+		g.tags["border-asym"] = true
+	}
+	g.tags["decor"] = true
+}
+
 func (g *gen) leaf() *Node {
 	r := g.r
 	if r.Chance(2, 3) {
 		n := &Node{Kind: KPara, N: r.Range(1, 8), Lh: vlib.Pick(r, []int{20, 20, 20, 25, 30}), Orphans: 1, Widow: 1}
 		if r.Chance(1, 6) {
 			n.N = r.Range(8, 14)
+		} else if g.p.Decor && r.Chance(2, 3) {
+			n.N = r.Range(1, 3) // small blocks: many block ends per page
 		}
 		if g.p.OW {
 			n.Orphans = vlib.Pick(r, []int{1, 2, 2, 3, 4})
@@ -270,6 +332,9 @@ func (g *gen) decl() Decl {
 func Generate(r *vlib.Rng, p Profile) *Doc {
 	g := &gen{r: r, p: p, tags: map[string]bool{}}
 	g.hc = vlib.Pick(r, []int{60, 80, 100, 100, 120, 160, 200})
+	if p.Decor {
+		g.hc = vlib.Pick(r, []int{100, 120, 160, 200, 240})
+	}
 	d := &Doc{Tags: g.tags}
 	if r.Chance(1, 6) {
 		d.Rtl = true
